@@ -42,9 +42,11 @@ TrInit == /\ IsEvent("Init")
 OffOf(keys, k) == LET js == {j \in 1..Len(keys) : keys[j][1] = k} IN
                   IF js = {} THEN 0 ELSE keys[CHOOSE j \in js : TRUE][2]
 
-\* btree built by Builder from sorted (key, offset) pairs; OverlayFor(bt)
+\* btree built by Builder from sorted (key, offset) pairs; OverlayFor(bt) / OverlayForN(bt, nl)
 TrBuild == /\ IsEvent("Build")
-           /\ ovs' = [ovs EXCEPT ![Ev.ov] = OverlayFor(u, [k \in KeySet(u) |-> OffOf(Ev.keys, k)])]
+           /\ ovs' = [ovs EXCEPT ![Ev.ov] =
+                        [OverlayFor(u, [k \in KeySet(u) |-> OffOf(Ev.keys, k)])
+                           EXCEPT !.layers = [i \in 1..Ev.nl |-> EmptyLayer(u)]]]
            /\ UNCHANGED <<u, ibs, its>>
 TrMutable == /\ IsEvent("Mutable")
              /\ ~ovs[Ev.from].hasMut
